@@ -30,3 +30,34 @@ Lemma match_pairs_cons xs m ms :
 Proof. reflexivity. Qed.
 Lemma match_pairs_perm xs ms ms' : Permutation ms ms' -> Permutation (match_pairs xs ms) (match_pairs xs ms').
 Proof. intros H. unfold match_pairs. apply flat_map_perm. exact H. Qed.
+(* T13b: conversely, with positive weights a vanishing cost means every residual vanishes - so ANY minimiser of noise-free data
+   (its cost cannot exceed that of the truth, which is 0) reproduces every observation exactly, hence, by T14, the true temperature at
+   every reference location *)
+Lemma sumQ_nonneg_zero {A} (f : A -> Q) l : (forall a, In a l -> 0 <= f a) -> sumQ f l == 0 -> forall a, In a l -> f a == 0.
+Proof.
+  induction l as [|x l IH]; intros Hn Hz a Ha; [destruct Ha|].
+  simpl in Hz.
+  assert (H0: 0 <= f x) by (apply Hn; left; reflexivity).
+  assert (H1: 0 <= sumQ f l) by (apply sumQ_nonneg; intros b Hb; apply Hn; right; exact Hb).
+  assert (Ex: f x == 0) by lra. assert (El: sumQ f l == 0) by lra.
+  destruct Ha as [<-|Ha]; [exact Ex|]. apply IH; [intros b Hb; apply Hn; right; exact Hb|exact El|exact Ha].
+Qed.
+Lemma zero_cost_zero_residuals {P} (rows : list (row (P:=P))) p :
+  (forall r, In r rows -> 0 <= rwgt r) -> S rows p == 0 -> forall r, In r rows -> 0 < rwgt r -> resid r p == 0.
+Proof.
+  intros Hw Hz r Hr Hpos. unfold S in Hz.
+  assert (E: rwgt r * (resid r p * resid r p) == 0).
+  { apply (sumQ_nonneg_zero (fun r0 => rwgt r0 * (resid r0 p * resid r0 p)) rows); [|exact Hz|exact Hr].
+    intros a Ha. specialize (Hw a Ha). assert (0 <= resid a p * resid a p) by nra. nra. }
+  assert (E2: resid r p * resid r p == 0) by nra. nra.
+Qed.
+Lemma minimiser_of_consistent_data {P} (rows : list (row (P:=P))) p_true q :
+  (forall r, In r rows -> 0 <= rwgt r) -> (forall r, In r rows -> resid r p_true == 0) ->
+  S rows q <= S rows p_true -> forall r, In r rows -> 0 < rwgt r -> resid r q == 0.
+Proof.
+  intros Hw Hc Hle. apply zero_cost_zero_residuals; [exact Hw|].
+  assert (E0: S rows p_true == 0) by (apply consistent_zero_cost; exact Hc).
+  assert (Hn: 0 <= S rows q).
+  { unfold S. apply sumQ_nonneg. intros a Ha. specialize (Hw a Ha). assert (0 <= resid a q * resid a q) by nra. nra. }
+  lra.
+Qed.
